@@ -92,6 +92,23 @@ def run_case(rng, idx, tier):
             pts.append(c + lam * (s - c))
         # feature neighbourhood
         pts.append(s + gen.rand_dir(rng) * o.scale() * 10 ** rng.uniform(-7, -3))
+        # just outside the band: the support point pushed out along the direction by delta has distance exactly delta
+        dh = d / np.linalg.norm(d)
+        for delta in (2e-9, 1e-8, 1e-6):
+            pts.append(s + dh * delta * L)
+    if kind == "mesh":
+        # points just outside the interior of random faces (incl. sliver faces of chamfered meshes)
+        Vw = np.asarray(spec["V"], float) @ np.asarray(spec["T"], float)[:3, :3].T + np.asarray(spec["T"], float)[:3, 3]
+        tri = gen.triangles_for(np.array(spec["V"], dtype=float, order="C"))
+        for t in tri[rng.choice(len(tri), size=min(12, len(tri)), replace=False)]:
+            a, b, c_ = Vw[t[0]], Vw[t[1]], Vw[t[2]]
+            nrm = np.cross(b - a, c_ - a)
+            if np.linalg.norm(nrm) > 0:
+                nrm = nrm / np.linalg.norm(nrm)
+                w = rng.dirichlet(np.ones(3))
+                q = w[0] * a + w[1] * b + w[2] * c_
+                for delta in (2e-9, 1e-8, 1e-6):
+                    pts.append(q + nrm * delta * L)
     R = frames[0] if frames else np.eye(3)
     for i in range(3):
         for t in (-1.5, -1.0, -0.5, 0.0, 0.5, 1.0, 1.5):
